@@ -136,6 +136,17 @@ class InputExp(_Validation, fsm.FSM):
     def on_enter_expired(self) -> None:
         self.sdata.pop('input', None)
 
+    def _restore_state(self, istate: Sequence, /) -> None:
+        """Restore the saved state unless the saved value fails the validation (cf. Input)."""
+        if istate[0] == 'valid' and len(istate) > 2 and 'input' in istate[2]:
+            try:
+                value = self._validate(istate[2]['input'])
+            except ValueError as err:
+                self.log_warning("saved state not restored: %s", err)
+                return
+            istate = [istate[0], istate[1], {**istate[2], 'input': value}]
+        super()._restore_state(istate)
+
     def calc_output(self) -> Any:
         """Stop the FSM part from setting the output."""
         return self.sdata['input'] if self._state == 'valid' else self._expired
